@@ -141,6 +141,14 @@ func c03r9(c *Ctx) {
 	}
 	c.Check("kind.DestinationRule resolved", fn.Pos(), drKind >= 0, "constant kind.DestinationRule not found")
 	n := 0
+	// the bookkeeping may live in a helper of the package that selectDestinationRules calls
+	scan := []*ssa.Function{fn}
+	for _, g := range p.CG().Callees(fn) {
+		if funcPkgPath(g) == funcPkgPath(fn) && len(g.Blocks) > 0 && g != fn {
+			scan = append(scan, g)
+		}
+	}
+	for _, fn := range scan {
 	eachInstr(fn, func(ins ssa.Instruction) {
 		al, ok := ins.(*ssa.Alloc)
 		if !ok || al.Referrers() == nil {
@@ -225,6 +233,7 @@ func c03r9(c *Ctx) {
 		c.Check("every DestinationRule the scope depends on is a key of its rule index", pos, !found,
 			"selectDestinationRules registers a dependency on a DestinationRule name (so a change of that rule is pushed to the proxy) without recording the merged rule under that name in destinationRulesByNames: delta CDS looks the changed rule up by name, finds neither the current nor the previous rule, rebuilds nothing and removes nothing - the delta client keeps clusters of subsets that no longer exist and never gets the new ones, unlike a state-of-the-world client")
 	})
+	}
 	c.Check("DestinationRule dependencies in selectDestinationRules found (positive control)", fn.Pos(), n >= 1, fmt.Sprintf("%d ConfigKey{Kind: DestinationRule} literals found", n))
 	c.Floor(3)
 }
